@@ -110,7 +110,8 @@ def rand_style(rng, families, ident, images):
     kw = {"name": ["VF {}", "vf-{}", "Vf {}", "VF-{}"][ident % 4].format(ident // 4)}
     kw["font_name"] = families[(ident * 7919 + rng.randrange(len(families))) % len(families)]
     if rng.random() < .8:
-        kw["font_size"] = rng.randrange(2, 193) / 2.0
+        # whole, half, quarter and eighth points (all exact in single precision)
+        kw["font_size"] = rng.randrange(2, 193) / 2.0 if rng.random() < .5 else rng.randrange(8, 1544) / 8.0
     if rng.random() < .7:
         kw["font_color"] = rng.choice([[0, 0, 0], [255, 255, 255], [255, 0, 0], [0, 255, 0], [0, 0, 255], [rng.randrange(256) for _ in range(3)]])
     for b in ("bold", "italic", "underline", "strikethrough"):
@@ -120,7 +121,9 @@ def rand_style(rng, families, ident, images):
         kw["alignment"] = [rng.choice(["left", "center", "right", "justified", "auto"]), rng.choice(["top", "middle", "bottom"])]
     c = rng.random()
     if c < .4:
-        kw["bg_color"] = rng.choice([[0, 0, 0], [255, 255, 255], [rng.randrange(256) for _ in range(3)]])
+        # colours whose components spell the same digits when written one after the other are different colours
+        kw["bg_color"] = rng.choice([[0, 0, 0], [255, 255, 255], [rng.randrange(256) for _ in range(3)], [1, 23, 4], [12, 3, 4], [1, 2, 34], [11, 1, 1], [1, 11, 1], [1, 1, 11],
+                                     [25, 5, 0], [2, 55, 0], [255, 0, 0]])
     elif c < .55:
         k = rng.randrange(2)  # one file name per image: the library stores images by content digest
         kw["bg_image"] = {"hex": images[k], "filename": ["vf-a.png", "vf-b.png"][k]}
@@ -168,7 +171,7 @@ def style_case(case, rec):
                 # a near-duplicate: the previous style with exactly one attribute changed (fingerprints / caches must tell them apart)
                 prev = dict(styles[-1][0])
                 which = rng.choice(["text_wrap", "bold", "italic", "underline", "strikethrough", "font_size", "font_color", "bg_color", "alignment_h", "alignment_v",
-                                    "text_inset", "first_indent", "left_indent", "right_indent", "font_name"])
+                                    "text_inset", "first_indent", "left_indent", "right_indent", "font_name", "bg_color_digits", "bg_color_digits", "indent_digits"])
                 prev["name"] = kw["name"]
                 if which in ("text_wrap", "bold", "italic", "underline", "strikethrough"):
                     prev[which] = not prev.get(which, which == "text_wrap")
@@ -178,6 +181,24 @@ def style_case(case, rec):
                     prev["font_color"] = [(x + 7) % 256 for x in prev.get("font_color", [0, 0, 0])]
                 elif which == "bg_color" and "bg_image" not in prev:
                     prev["bg_color"] = [(x + 9) % 256 for x in prev.get("bg_color", [10, 20, 30])]
+                elif which == "bg_color_digits" and "bg_image" not in prev and "bg_color" in prev:
+                    # another colour whose components, written one after the other, spell the same digits
+                    r_, g_, b_ = prev["bg_color"]
+                    txt = f"{r_}{g_}{b_}"
+                    alts = []
+                    for i1 in range(1, len(txt)):
+                        for i2 in range(i1 + 1, len(txt)):
+                            parts = (txt[:i1], txt[i1:i2], txt[i2:])
+                            if all(p_ == "0" or not p_.startswith("0") for p_ in parts) and all(int(p_) < 256 for p_ in parts) and [int(p_) for p_ in parts] != [r_, g_, b_]:
+                                alts.append([int(p_) for p_ in parts])
+                    if alts:
+                        prev["bg_color"] = rng.choice(alts)
+                        rec.count("styles_differing_only_by_how_digits_are_split")
+                    else:
+                        prev["bg_color"] = [(x + 9) % 256 for x in prev["bg_color"]]
+                elif which == "indent_digits":
+                    # the same for two neighbouring measures: (1.5, 11.5) and (1.51, 1.5) read alike when glued together
+                    prev["first_indent"], prev["left_indent"] = (1.5, 11.5) if prev.get("first_indent") != 1.5 else (1.51, 1.5)
                 elif which == "alignment_h":
                     a = prev.get("alignment", ["auto", "top"])
                     prev["alignment"] = ["right" if a[0] != "right" else "center", a[1]]
